@@ -271,7 +271,7 @@ def rule_wire(ctx):
     from . import c01
     from ..report import Ctx
     scratch = Ctx(ctx.repo, "C01", ctx.tier)
-    for r in ("C01.tags", "C01.int", "C01.class", "C01.pack", "C01.dbl", "C01.unpack", "C01.count"):
+    for r in ("C01.tags", "C01.int", "C01.class", "C01.pack", "C01.dbl", "C01.unpack", "C01.count", "C01.dict"):
         scratch.rule(r, "", 0)
     widths = c01.rule_int(scratch)
     c01.rule_class(scratch, widths)
@@ -281,7 +281,8 @@ def rule_wire(ctx):
     if tables:
         c01.rule_unpack(scratch, tables)
     c01.rule_count(scratch)
-    ctx.adopt(scratch, {r: "C09.wire" for r in ("C01.tags", "C01.int", "C01.class", "C01.pack", "C01.dbl", "C01.unpack", "C01.count")})
+    c01.rule_dict(scratch)
+    ctx.adopt(scratch, {r: "C09.wire" for r in ("C01.tags", "C01.int", "C01.class", "C01.pack", "C01.dbl", "C01.unpack", "C01.count", "C01.dict")})
 
 
 def run(ctx):
